@@ -26,6 +26,9 @@ def extra_facts(ctx, leg):
         for a in als:
             lines.append('#ifdef %s' % a['macro'])
             lines.append('const verif_u64 verif_alias_%s = (verif_u64)(%s);' % (a['macro'], a['macro']))
+            # as an operand without parentheses of ours (an expansion `A + 1` would change value here)
+            lines.append('const verif_u64 verif_aliasop_%s = (verif_u64)(7 * %s * 3) + 1000000ULL * (verif_u64)(5000 + - %s);'
+                         % (a['macro'], a['macro'], a['macro']))
             lines.append('#endif')
         p = os.path.join(d, 'alias_%d.c' % k)
         open(p, 'w').write('\n'.join(lines) + '\n')
@@ -301,7 +304,13 @@ def run(ctx, tier, res, tag=''):
             res.violation('alias:%s' % a['macro'], '%s: legacy name %s evaluates to %d (%s) but must designate %s = %d (field %s)'
                           % (where, a['macro'], got, ', '.join(hit) or 'no field', wname, want, a['field']))
         else:
-            res.ok()
+            op = xf.get('verif_aliasop_' + a['macro'])
+            if op is not None and op != 21 * want + 1000000 * (5000 - want):
+                res.violation('alias:%s:operand' % a['macro'], '%s: legacy name %s is %d on its own but 7 * %s * 3 / 5000 + - %s do not evaluate '
+                              'to %d / %d: the alias does not expand to a primary expression, so it is not interchangeable with %s inside '
+                              'an expression' % (where, a['macro'], got, a['macro'], a['macro'], 21 * want, 5000 - want, wname))
+            else:
+                res.ok()
     # aliases in combination with every other header
     bymacro = {a['macro']: a for a in leg['aliases']}
     for name, v in sorted(xf.items()):
@@ -365,6 +374,6 @@ def run(ctx, tier, res, tag=''):
 
 
 def main(tier, seed):
-    from ..ctx import Ctx
+    from ..ctx import run_all_configs
     res = Result('C12', tier, 'proof', seed)
-    return run(Ctx('le'), tier, res)
+    return run_all_configs(run, tier, res)
